@@ -70,7 +70,9 @@ statechart:
         transitions:
         - event: go
           target: l2
-          action: send('ping', level=1)
+          action: |
+            send('ping', level=1)
+            seen = active('l1')
       - name: l2
         on entry: send('ping', level=2)
         transitions:
@@ -93,6 +95,7 @@ statechart:
         transitions:
         - event: ping
           target: r2
+          action: looked = active('l2')
       - name: r2
         transitions:
         - guard: idle(2)
@@ -115,6 +118,7 @@ statechart:
         transitions:
         - event: next
           target: s2
+          action: looked = active('s1')
       - name: s2
         transitions:
         - event: next
@@ -233,6 +237,7 @@ class Oracle:
         self.monitored = None
         self.snaps = None
         self.monitoring = False
+        self.conf = set()       # active states, folded from what every macro step said it exited and entered
 
     def act(self, keyword, text):
         """perform one given/when step"""
@@ -269,6 +274,10 @@ class Oracle:
 
     def _after(self, keyword):
         steps = self.it.execute()
+        for st in steps:
+            for ms in st.steps:
+                self.conf.difference_update(ms.exited_states)
+                self.conf.update(ms.entered_states)
         if keyword == 'when':
             if not self.monitoring:
                 self.monitoring = True
@@ -291,7 +300,7 @@ class Oracle:
             s, pat = t[1], t[2]
             ent = any(s in ms.entered_states for st in mon for ms in st.steps)
             exi = any(s in ms.exited_states for st in mon for ms in st.steps)
-            act = s in it.configuration
+            act = s in self.conf
             return {'is entered': ent, 'is not entered': not ent, 'is exited': exi, 'is not exited': not exi,
                     'is active': act, 'is not active': not act}[pat]
         sent = [e for st in mon for ms in st.steps for e in ms.sent_events]
@@ -315,7 +324,7 @@ class Oracle:
             eq = it.context[t[1]] == eval(t[3], {}, {})
             return eq if t[2] == 'equals' else not eq
         if t[0] == 'expr':
-            ctx = {'active': lambda s: s in it.configuration, 'time': it.time}
+            ctx = {'active': lambda s: s in self.conf, 'time': it.time}
             v = bool(eval(t[1], ctx, dict(it.context)))
             return v if t[2] == 'holds' else not v
         if t[0] == 'final':
